@@ -48,12 +48,14 @@ func (rc *arrayCodec) Read(r *ReadBuf, p unsafe.Pointer) error {
 					n = limit
 				}
 				*sh = rc.resizeSlice(*sh, int(n))
+				verifPoint(vpArrayReadAfterResize)
 			}
 			cursor := unsafe.Pointer(uintptr(sh.Data) + uintptr(sh.Len)*itemSize)
 			if err := rc.itemCodec.Read(r, cursor); err != nil {
 				return fmt.Errorf("failed to decode array entry %d. %w", i, err)
 			}
 			sh.Len++
+			verifPoint(vpArrayReadAfterItem)
 		}
 	}
 
